@@ -389,6 +389,14 @@ def evaluate_history(spec, wd, entropy, stats=None):
         ok, msg = llvm_as("linked.ll", wd)
         if not ok:
             viol.append(("invalid_ir_after_history", msg))
+        # what every module defined for the outside is defined in the linked program
+        have = external_definitions(linked[0]["ir"])
+        for s in steps:
+            if s["stop"] == "full" and s["verdict"] == "ok" and s.get("ir"):
+                lost = sorted(external_definitions(s["ir"]) - have)
+                if lost:
+                    viol.append(("linked_program_lost_definitions", "step %d (%s) defined %s; the linked program does not" % (s["i"], s["name"], lost[:4])))
+                    break
     seen = {}
     for c, d in viol:
         seen.setdefault(c, d)
@@ -512,8 +520,11 @@ def make_history_spec(rng, split, files, other_split, other_files, negative_modu
     # combined module; linking is only judged when every module completed
     complete = all(op["stop"] == "full" for op in ops) and negative_module is None and not any(a["name"] != "aux/lint_accepted.pn" for a in aux)
     spec = {"groups": groups, "ops": ops, "link": True, "refs": True, "check_linked": complete}
-    if rng.random() < 0.1:
+    r = rng.random()
+    if r < 0.1:
         spec["wasm"] = True         # the whole history (and its references) through a Compiler retargeted to wasm32
+    elif r < 0.2 and len({(o["g"], o["m"]) for o in ops}) == len(ops) and len(ops) >= 2:
+        spec["wasm_from"] = rng.randrange(1, len(ops))      # retargeted in the middle: earlier modules stay, later ones are wasm32
     return spec
 
 
